@@ -1028,6 +1028,12 @@ func (e *c03Env) runCase(c *c03Case, corr bool) error {
 	if len(c.Others) > 0 {
 		planted = "other-format:" + c.Others[0].Kind
 	}
+	for _, op := range c.Ops {
+		if strings.HasPrefix(op, "m:") {
+			planted += "+object-changed-after-a-successful-read"
+			break
+		}
+	}
 	for _, f := range c.Faults {
 		if f.F == "rs" {
 			planted += "+scripted-peer-answer"
@@ -1039,13 +1045,40 @@ func (e *c03Env) runCase(c *c03Case, corr bool) error {
 	}
 	c.Impl = nil
 	anyBadPlant := planted != "good" || len(c.Faults) > 0 || len(c.Others) > 0
-	var held []c03Held // every chunk a GetChunk returned without error is kept until the end of the case
+	mutated := map[int]map[string]bool{} // slots the harness itself rewrote in the course of the case
+	var held []c03Held                   // every chunk a GetChunk returned without error is kept until the end of the case
 	for opi, op := range c.Ops {
 		f := strings.Split(op, ":")
-		idb, _ := hex.DecodeString(f[1])
+		idField := f[1]
+		if f[0] == "m" {
+			idField = f[2]
+		}
+		idb, _ := hex.DecodeString(idField)
 		var id desync.ChunkID
 		copy(id[:], idb)
 		var zero desync.ChunkID
+		if f[0] == "m" {
+			// the world changes under the store: m:<k>:<id>:<objhex>:<keep|touch> replaces the object
+			// in place; "keep" restores the file's modification time (same size is the
+			// generator's business)
+			k, _ := strconv.Atoi(f[1])
+			p := e.slotPath(k, uncOf[k], f[2])
+			fi, statErr := os.Stat(p)
+			os.MkdirAll(filepath.Dir(p), 0755)
+			if err := os.WriteFile(p, vh.UnHex(f[3]), 0644); err != nil {
+				return err
+			}
+			if statErr == nil && len(f) > 4 && f[4] == "keep" {
+				os.Chtimes(p, fi.ModTime(), fi.ModTime())
+			}
+			c.Impl = append(c.Impl, "m")
+			anyBadPlant = true
+			if mutated[k] == nil {
+				mutated[k] = map[string]bool{}
+			}
+			mutated[k][f[2]] = true
+			continue
+		}
 		if f[0] != "g" {
 			resc := make(chan string, 1)
 			go func() { resc <- e.consumer(c, store, f, id, opi, verifying) }()
@@ -1100,6 +1133,9 @@ func (e *c03Env) runCase(c *c03Case, corr bool) error {
 		after[l.k] = c03Scan(filepath.Join(cd, fmt.Sprintf("b%d", l.k)), l.unc)
 		for name, obj := range after[l.k] {
 			if old, ok := before[l.k][name]; ok && bytes.Equal(old, obj) {
+				continue
+			}
+			if mutated[l.k][name] {
 				continue
 			}
 			if strings.HasPrefix(name, "tmp:") {
@@ -1392,7 +1428,7 @@ func c03OracleOps(ops []string) []string {
 	out := make([]string, len(ops))
 	for i, op := range ops {
 		f := strings.Split(op, ":")
-		if f[0] == "r" && len(f) == 5 {
+		if (f[0] == "r" || f[0] == "m") && len(f) == 5 {
 			op = strings.Join(f[:4], ":")
 		}
 		out[i] = op
